@@ -15,7 +15,7 @@ import (
 func init() {
 	register(&Info{
 		ID: "C12", Fn: runC12, NeedsRace: true,
-		Rule: "three kinds of case. (a/c) operation histories: 1-8 owners, each with a private forest, issue tape-drawn CreateNode/CreateXMLNode/CreateJSONNode, AddChild, RemoveAndReleaseTree (first/middle/last/only child, roots) with pooling on and the pool emptied at chosen steps; after EVERY operation the owner's real trees are compared with an ordered-tree model (links, order, data, IDs, blankness of fresh nodes, no double hand-out); with >= 2 owners the seeded scheduler interleaves them at operation granularity, half of the workers in the race build, and the union of all acquired IDs must be duplicate-free. (b) trees handed out by the seven readers: every record delivered for corpus/generated worlds under drawn delivery plans, truncation and storage faults is audited. Non-trivial = >= 10 operations incl. a removal, or >= 1 audited record; distinct = distinct (operation lists / world+plan, interleaving hash).",
+		Rule: "six kinds of case. (a/c) operation histories: 1-8 owners, each with a private forest, issue tape-drawn CreateNode/CreateXMLNode/CreateJSONNode, AddChild, RemoveAndReleaseTree (first/middle/last/only child, roots) with pooling on and the pool emptied at chosen steps; after EVERY operation the owner's real trees are compared with an ordered-tree model (links, order, data, IDs, blankness of fresh nodes, no double hand-out); with >= 2 owners the seeded scheduler interleaves them at operation granularity, half of the workers in the race build, and the union of all acquired IDs must be duplicate-free. (b) trees handed out by the seven readers: every record delivered for corpus/generated worlds under drawn delivery plans, truncation and storage faults is audited. (d) long recycle histories: 70 000 - 1.2 M create/release cycles of small trees around 1-6 long-lived nodes, every ID recorded, fresh nodes blank. (e) the format reader of a real Transform, and (f) the two idr stream readers, driven directly: Read/Release, 1-3 Reads after the terminal result, transient input failures followed by another try, a second owner taking and returning pooled nodes between any two calls; after every call no node is in the pool twice, every pooled node is blank, the second owner's nodes are untouched, every tree handed out is sound. Non-trivial = >= 10 operations incl. a removal, or >= 1 audited record, or >= 1 Read after the terminal result; distinct = distinct (operation lists / world+plan, interleaving hash).",
 		Real: []string{"idr (node.go, jsonnode.go, xmlnode.go, readers) and, for (b), all of /repo as in the other checks"}, Simulated: append(append([]string{}, commonSim...), "which owner runs next (seeded scheduler, raw-pipe hand-off)"),
 		Assume: []string{"in race builds sync.Pool drops a quarter of the Puts at random (stdlib); this changes which node object is recycled, never an oracle"},
 	})
